@@ -152,8 +152,13 @@ def gen_history(rng, prof, probes):
         if sh.ro and kind in ('pub', 'del', 'delm', 'trim', 'compact'):
             kind = rng.choice(['reopen', 'probe'])
         if kind == 'pub':
-            ops.append(draw_pub(rng, prof, sh))
-            note('pub')
+            if rng.random() < prof.get('p_big', 0.01):
+                # a batch refused for an oversized message: nothing is published (F12), a due rollover still happens
+                ops.append('pubbig %d' % rng.choice([0, 1, 2]))
+                note('pubbig')
+            else:
+                ops.append(draw_pub(rng, prof, sh))
+                note('pub')
         elif kind in ('del', 'delm'):
             sh.bk = {n: False for n in sh.bk}
             offs, cls = draw_offsets(rng, sh, prof.get('delete_class'))
